@@ -126,7 +126,7 @@ def coq_project():
     return True, ""
 
 
-def coq_make(targets, timeout=1500, force=()):
+def coq_make(targets, timeout=1500, force=(), keep_going=False):
     """Full .vo build of the given targets (relative to coq/).  `force` targets are recompiled
     even when up to date, so that their Print Assumptions output is captured."""
     ok, out = coq_project()
@@ -138,7 +138,7 @@ def coq_make(targets, timeout=1500, force=()):
                 os.remove(os.path.join(COQ, t[:-3] + ext))
             except OSError:
                 pass
-    rc, out = sh(["make", "-f", "Makefile.coq", "-j16"] + list(targets), cwd=COQ, timeout=timeout)
+    rc, out = sh(["make", "-f", "Makefile.coq", "-j16"] + (["-k"] if keep_going else []) + list(targets), cwd=COQ, timeout=timeout)
     return rc == 0, out
 
 
